@@ -164,6 +164,7 @@ loop:
 				if w.s.metricsTracer != nil {
 					w.s.metricsTracer.DialCompleted(w.connected, totalDials, time.Since(startTime))
 				}
+				verifYield("dialWorker:exiting")
 				return
 			}
 			// We have received a new request. If we do not have a suitable connection,
